@@ -158,15 +158,33 @@ KindOf(x) == LET y == IF x.k = "par" THEN x.a ELSE x
              IN IF y.k \in {"sel", "rng"} THEN "sel"
                 ELSE IF y.k = "bin" /\ y.op \in RelOps THEN "cmp"
                 ELSE IF y.k = "bin" /\ y.op \in ShiftOps THEN "shift" ELSE "other"
-(* a partner that had to be promoted, or the partner next to which the back end printed a promotion it should not have *)
+(* what the back end (expression.py) takes the signedness of a printed operand to be: its own rule, transcribed -  *)
+(* a signal's declaration, TRUE for every negation and negative constant, `s1 or s2` for EVERY binary operator and  *)
+(* for the branches of ?:, the operand's for ~ and for selects, FALSE for {} and {n{}}                              *)
+RECURSIVE Believed(_, _)
+Believed(e, D) ==
+  CASE e.k = "id"   -> D[e.n].s = 1
+    [] e.k = "num"  -> e.s = 1
+    [] e.k = "par"  -> Believed(e.a, D)
+    [] e.k = "un"   -> IF e.op = "-" THEN TRUE ELSE Believed(e.a, D)
+    [] e.k = "bin"  -> Believed(e.a, D) \/ Believed(e.b, D)
+    [] e.k = "cond" -> Believed(e.a, D) \/ Believed(e.b, D)
+    [] e.k = "sgn"  -> e.f = "$signed"
+    [] e.k \in {"sel", "rng"} -> Believed(e.a, D)
+    [] OTHER -> FALSE
+(* <<kind, the back end believed it signed>> of a partner that had to be promoted, or of the partner next to which *)
+(* the back end printed a promotion it should not have.  Only a wrong belief explains a missing / spurious          *)
+(* promotion of the unchanged back end; a promotion missing next to an operand it knows to be unsigned does not.    *)
 Pair(x0, y0, D, M) ==
   LET x == Op(x0, M)
       y == Op(y0, M)
-  IN (IF Prom(x, y, D, M) /\ ~IsWrap(x0) THEN {KindOf(x)} ELSE {}) \cup (IF Prom(y, x, D, M) /\ ~IsWrap(y0) THEN {KindOf(y)} ELSE {})
-     \cup (IF IsWrap(x0) /\ ~Prom(x, y, D, M) THEN {KindOf(y)} ELSE {}) \cup (IF IsWrap(y0) /\ ~Prom(y, x, D, M) THEN {KindOf(x)} ELSE {})
+  IN (IF Prom(x, y, D, M) /\ ~IsWrap(x0) THEN {<<KindOf(x), Believed(x, D)>>} ELSE {})
+     \cup (IF Prom(y, x, D, M) /\ ~IsWrap(y0) THEN {<<KindOf(y), Believed(y, D)>>} ELSE {})
+     \cup (IF IsWrap(x0) /\ ~Prom(x, y, D, M) THEN {<<KindOf(y), Believed(y, D)>>} ELSE {})
+     \cup (IF IsWrap(y0) /\ ~Prom(y, x, D, M) THEN {<<KindOf(x), Believed(x, D)>>} ELSE {})
 PK(e, D, M) ==
   CASE e.k \in {"par", "sgn"} -> PK(e.a, D, M)
-    [] e.k = "un"   -> PK(e.a, D, M) \cup (IF PromNeg(e, D, M) THEN {KindOf(e.a)} ELSE {})
+    [] e.k = "un"   -> PK(e.a, D, M) \cup (IF PromNeg(e, D, M) THEN {<<KindOf(e.a), Believed(e.a, D)>>} ELSE {})
     [] e.k = "bin"  -> PK(e.a, D, M) \cup PK(e.b, D, M) \cup (IF e.op \in ShiftOps THEN {} ELSE Pair(e.a, e.b, D, M))
     [] e.k = "cond" -> PK(e.c, D, M) \cup PK(e.a, D, M) \cup PK(e.b, D, M) \cup Pair(e.a, e.b, D, M)
     [] e.k \in {"cat", "rep"} -> PKL(e.l, 1, D, M)
@@ -201,7 +219,8 @@ Classify(g, j, i, V) ==
       p == IF ovf THEN One(g.np) ELSE 0
       pc == IF p = 0 THEN <<"several", "several", "-">> ELSE FindG(g, p)
       ng == FindG(g, 0)
-      bk == IF "belief" \in S THEN PromKinds(g, Mode(S)) ELSE {}
+      pk == IF "belief" \in S THEN PromKinds(g, Mode(S)) ELSE {}
+      bk == {q[1] : q \in pk} \cup (IF \A q \in pk : q[2] THEN {} ELSE {"unbelieved"})
   IN IF VVal(g, j, V, Plain) < 0 THEN [causes |-> {"diverges"}, bk |-> {}, producer |-> "-", consumer |-> "-", rel |-> "-", mf |-> ""]
      ELSE IF ~r[1] THEN [causes |-> {"unexplained"}, bk |-> {}, producer |-> IF ng = <<>> THEN "-" ELSE ng[1],
                          consumer |-> IF ng = <<>> THEN "-" ELSE ng[2], rel |-> "-", mf |-> g.mf]
